@@ -319,3 +319,59 @@ def rule_loop_bits(ctx, prog, chk, family, exceptions=None, rule_name="LOOP-BITS
                     else:
                         chk.fail(rule_name, fn, "%s@%s" % (nm, fn.fmt(c[2][1])[:20]), "the bits of `%s` are scanned with an index that does not derive from bn_bits(%s): values longer than the fixed bound lose their high bits" % (nm, nm), line=el.line)
     return n
+
+
+# ---------------------------------------------------------------------- PAR-SIGN
+def rule_par_sign(ctx, prog, chk, in_scope, rule_name="PAR-SIGN"):
+    """the curve parameter (fp_prime_get_par) is a signed integer - negative for some parameter sets, positive for others of the
+    same family: a function that uses its low digit as a whole multiplier / exponent (V->dp[0] handed to a *_dig routine)
+    consults its sign on every path from there to a normal return"""
+    n = 0
+    for fn in prog.all:
+        if not (in_scope(fn) or "selftest" in fn.file):
+            continue
+        pars = set()
+        for el in fn.all_elements():
+            for c in ir.calls_in(fn, el.e):
+                if c[1] == "fp_prime_get_par" and c[2]:
+                    pars.add(key(fn, c[2][0]))
+        if not pars:
+            continue
+        sites = []
+        for el in fn.all_elements():
+            for c in ir.calls_in(fn, el.e):
+                if not (c[1] and re.search(r"_(mul|exp)_dig$", c[1])):
+                    continue
+                for a in c[2]:
+                    k = key(fn, a)
+                    if isinstance(k, tuple) and k[0] == "x" and isinstance(k[1], tuple) and k[1][0] == "m" and k[1][2] == "dp" and k[2] == ("i", 0) and k[1][1] in pars:
+                        sites.append((el, k[1][1], c[1]))
+        if not sites:
+            continue
+        g = ctx.xcfg(prog, fn)
+        ids = {el.id: V for el, V, _ in sites}
+
+        def gen(node, s, pre, fn=fn, ids=ids):
+            out = []
+            if node.el.id in ids:
+                out.append(("ev", "lowdig", ids[node.el.id]))
+            for c in ir.calls_in(fn, node.el.e):
+                if c[1] == "bn_sign" and c[2] and key(fn, c[2][0]) in pars:
+                    out.append(("ev", "signchk", key(fn, c[2][0])))
+            for sub in ir.walk(fn, node.el.e):
+                if sub[0] == "m" and sub[2] == "sign" and key(fn, sub[1]) in pars:
+                    out.append(("ev", "signchk", key(fn, sub[1])))
+            return out
+        F = Facts(prog, g, gen=gen, mark_thrown=True)
+        for el, V, callee in sites:
+            n += 1
+            bad = None
+            for p, st in engines.normal_exit_states(F, g):
+                if ("ev", "lowdig", V) in st and ("ev", "signchk", V) not in st:
+                    bad = p
+            nm = engines.fmt_key(fn, V) if hasattr(engines, "fmt_key") else str(V)
+            if bad is not None:
+                chk.fail(rule_name, fn, "%s@%s" % (nm, callee), "the low digit of the curve parameter `%s` is used as the whole multiplier of `%s` and a path returns without its sign ever being consulted: the parameter is negative for some parameter sets and positive for others" % (nm, callee), line=el.line)
+            else:
+                chk.ok(rule_name, fn, "%s@%s" % (nm, callee), "sign of the curve parameter consulted on every path after its low digit is used", line=el.line)
+    return n
